@@ -191,7 +191,7 @@ let parse_val s =
   | _ -> failwith ("bad value " ^ s)
 
 (* slots: script object slot h <-> spec id 8*h (+ internal offsets); aliases through clone *)
-type env = { mutable alias : (int * int) list; mutable csinks : int list }
+type env = { mutable alias : (int * int) list; mutable csinks : int list; mutable killers : (int * int) list }
 let sid env h = try List.assoc h env.alias with Not_found -> 8 * h
 let obj env s = nat_of_int (sid env (int_of_string s))
 
@@ -272,6 +272,11 @@ let ops_of_line env line : op list =
   | ["router"; r; s; sl] -> let d = DRouter (obj env s, parse_sel sl) in fresh r; [ODef (n8 r 0, d)]
   | ["route"; h; r; k] -> let d = DRoute (obj env r, zz k) in fresh h; [ODef (n8 h 0, d)]
   | ["listen"; l; s] | ["listen_weak"; l; s] -> [OListen (nat l, obj env s)]
+  | ["listen_u"; l; s; v] ->
+    (* a listener whose callback unlistens listener v: the specification registers it as a plain listener; the
+       driver unlistens v after the line in which l was called, and v's own call in that very transaction is
+       unspecified (it depends on which callback runs first) so it is censored on both sides *)
+    env.killers <- (int_of_string l, int_of_string v) :: env.killers; [OListen (nat l, obj env s)]
   | ["listen_c"; l; c] -> [OListenC (nat l, nat_of_int (8 * (500 + int_of_string l) + 1), obj env c)]
   | ["unlisten"; l] | ["drop_weak"; l] -> [OUnlisten (nat l)]
   | ["{"] -> [OBegin]
@@ -314,7 +319,7 @@ let canon (os : obs list) : string =
 
 (* run a script under a choice prefix; returns output lines and the alternatives met *)
 let run_frp_once lines (prefix : int list) : string list * int list =
-  let env = { alias = []; csinks = [] } in
+  let env = { alias = []; csinks = []; killers = [] } in
   let st = ref init_state and out = ref [] and counts = ref [] and choices = ref prefix in
   let stopped = ref false in
   List.iter (fun line ->
@@ -374,6 +379,16 @@ let split_expected line =
   | Some i -> (String.trim (String.sub line 0 i), Some (String.trim (String.sub line (i + 2) (n - i - 2))))
   | None -> (line, None)
 
+(* calls of a victim listener in a line in which its killer was called are unspecified: drop them *)
+let censor (killers : (int * int) list) (os : obs list) : obs list =
+  let called l = List.exists (function BCall (l', _) -> int_of_nat l' = l | _ -> false) os in
+  let dead = List.filter_map (fun (l, v) -> if called l then Some v else None) killers in
+  List.filter (function BCall (l', _) -> not (List.mem (int_of_nat l') dead) | _ -> true) os
+
+let fired_killers (killers : (int * int) list) (os : obs list) : int list =
+  let called l = List.exists (function BCall (l', _) -> int_of_nat l' = l | _ -> false) os in
+  List.filter_map (fun (l, v) -> if called l then Some v else None) killers
+
 (* observations so far must be compatible with the expected line: per-listener sequences are prefixes,
    samples/forced/posts/panics are among the expected items (multiset inclusion) *)
 let parse_expected (e : string) : (int * string list) list * string list =
@@ -403,7 +418,9 @@ let rec is_prefix a b = match a, b with
   | x :: a', y :: b' -> x = y && is_prefix a' b'
   | _ -> false
 
+let victims_ref : int list ref = ref []
 let compatible (exp : ((int * string list) list * string list) option) (os : obs list) : bool =
+  let os = List.filter (function BCall (l, _) -> not (List.mem (int_of_nat l) !victims_ref) | _ -> true) os in
   match exp with
   | None -> true
   | Some (ecalls, erest) ->
@@ -433,6 +450,13 @@ let line_outcomes env (st0 : state) line (expected : string option) : (state * s
   let exp = match expected with Some e -> (try Some (parse_expected e) with _ -> None) | None -> None in
   let results = ref [] and budget = ref 20000 in
   let seen = Hashtbl.create 97 in
+  victims_ref := List.map snd env.killers;
+  (* after the line: unlisten the victims whose killer was called in it *)
+  let finish (st : state) (acc : obs list) : state * string =
+    let vs = fired_killers env.killers acc in
+    let st' = List.fold_left (fun st v ->
+        match step_q st (OUnlisten (nat_of_int v)) with EV ((st1, _), _) -> st1 | EErr _ -> st) st vs in
+    (st', canon (censor env.killers acc)) in
   let add r = if not (List.mem r !results) then results := !results @ [r] in
   (* run the deferred queue *)
   let rec drain (st : state) (q : ditem list) (acc : obs list) (k : state -> obs list -> unit) =
@@ -456,7 +480,7 @@ let line_outcomes env (st0 : state) line (expected : string option) : (state * s
         end
     end in
   let rec go (st : state) (acc : obs list) = function
-    | [] -> add (st, canon acc, false)
+    | [] -> let (st', out) = finish st acc in add (st', out, false)
     | o :: rest ->
       (match step_q st o with
        | EV ((st1, os), q) -> drain st1 q (acc @ os) (fun st2 acc2 -> go st2 acc2 rest)
@@ -478,12 +502,13 @@ let line_outcomes env (st0 : state) line (expected : string option) : (state * s
           | EV ((st1, os), q) ->
             let (s2, a2, sp) = dflt st1 q (!acc @ os) 500 in st := s2; acc := a2; stop := sp
           | EErr e -> acc := !acc @ [BPanic e]; stop := true) ops;
-    [(!st, canon !acc, !stop)]
+    let (st', out) = finish !st !acc in
+    [(st', out, !stop)]
   end else !results
 
 let run_frp_guided oc (name, lines) =
   Printf.fprintf oc "# %s\n" name;
-  let env = { alias = []; csinks = [] } in
+  let env = { alias = []; csinks = []; killers = [] } in
   let cands = ref [init_state] and stopped = ref false in
   List.iter (fun raw ->
       if not !stopped then begin
